@@ -236,6 +236,7 @@ static uint64_t run_op(const KV& k, ThreadState& ts, uint64_t h) {
             e.rfind_pdu<TCP>().mss((uint16_t)(v & 0x7fff)); e.rfind_pdu<TCP>().seq(v); PDU::serialization_type s = e.serialize(); h = H(h, s.data(), s.size()); EthernetII f(s.data(), (uint32_t)s.size()); h = Hu(h, f.rfind_pdu<TCP>().mss());
             // management frame with the WPA2-PSK RSN preset, ICMP / ICMPv6 errors with RFC 4884 extensions, IPv6 with a routing-less extension chain, DHCP
             { Dot11Beacon b; b.addr1(Dot11::BROADCAST); b.addr2(HWAddress<6>(fmt("00:01:02:03:%02x:%02x", v & 0xff, (v >> 8) & 0xff))); b.addr3(b.addr2()); b.ssid(fmt("net-%u", v % 1000)); b.ds_parameter_set((uint8_t)(1 + v % 13)); b.supported_rates(Dot11ManagementFrame::rates_type(3, 1.0f + (float)(v % 5)));
+              { int ntrip = 1 + (int)(v % 4); std::vector<uint8_t> fc((size_t)ntrip, (uint8_t)(1 + v % 11)), nc((size_t)ntrip, (uint8_t)(1 + (v >> 4) % 13)), mp((size_t)ntrip, (uint8_t)(10 + (v >> 8) % 20)); b.country(Dot11ManagementFrame::country_params((v & 16) ? "US " : "DE ", fc, nc, mp)); }
               b.rsn_information(RSNInformation::wpa2_psk()); PDU::serialization_type sb = b.serialize(); h = H(h, sb.data(), sb.size()); Dot11Beacon pb(sb.data(), (uint32_t)sb.size()); RSNInformation ri = pb.rsn_information(); h = Hu(h, ri.pairwise_cyphers().size()); h = Hu(h, ri.akm_cyphers().size()); }
             // (which of the two families comes first depends on the op's value: nothing may depend on who asked first)
             for (int pass = 0; pass < 2; ++pass) { const bool v6_now = ((v >> 2) & 1) ? pass == 0 : pass == 1;
@@ -250,6 +251,12 @@ static uint64_t run_op(const KV& k, ThreadState& ts, uint64_t h) {
         else if (op == "follow") {
             if (!ts.fol) { ts.fol.reset(new TCPIP::StreamFollower()); ThreadState* self = &ts; ts.fol->new_stream_callback([self](TCPIP::Stream& s) { s.client_data_callback([self](TCPIP::Stream& x) { self->fol_bytes = fnv1a(x.client_payload().data(), x.client_payload().size(), self->fol_bytes); }); s.server_data_callback([self](TCPIP::Stream& x) { self->fol_bytes = fnv1a(x.server_payload().data(), x.server_payload().size(), self->fol_bytes); }); }); }
             Bytes f = k.bytes("f"); EthernetII e(f.data(), (uint32_t)f.size()); Packet pk(e, Timestamp(std::chrono::microseconds(k.num("ts")))); ts.fol->process_packet(pk); h = Hu(h, ts.fol_bytes);
+        }
+        else if (op == "legacy") {   // the legacy follower on a private little trace: stream ids and payloads go into the digest
+            uint32_t v = (uint32_t)k.u64("v"); TCPStreamFollower lf; std::vector<std::unique_ptr<PDU> > own; std::vector<PDU*> trace; uint32_t cisn = v, sisn = v * 7 + 1; IPv4Address ca(fmt("10.3.%u.1", v & 0xff)), sa("10.3.0.2");
+            auto mk = [&](bool fromc, uint32_t seq, uint32_t ack, int flags, const std::string& pl) { IP* ip = new IP(fromc ? sa : ca, fromc ? ca : sa); TCP t(fromc ? 80 : 1234, fromc ? 1234 : 80); t.seq(seq); t.ack_seq(ack); t.flags((small_uint<12>)flags); if (!pl.empty()) t.inner_pdu(RawPDU(pl)); ip->inner_pdu(t); own.emplace_back(ip); trace.push_back(ip); };
+            mk(true, cisn, 0, TCP::SYN, ""); mk(false, sisn, cisn + 1, TCP::SYN | TCP::ACK, ""); mk(true, cisn + 1, sisn + 1, TCP::ACK | TCP::PSH, fmt("hello-%u", v)); mk(false, sisn + 1, cisn + 1, TCP::ACK | TCP::PSH, "world"); mk(true, cisn + 1 + (uint32_t)fmt("hello-%u", v).size(), sisn + 6, TCP::FIN | TCP::ACK, "");
+            uint64_t hh = h; lf.follow_streams(trace.begin(), trace.end(), [&hh](TCPStream& st) { hh = Hu(hh, st.id()); hh = H(hh, st.client_payload().data(), st.client_payload().size()); hh = H(hh, st.server_payload().data(), st.server_payload().size()); return true; }, [&hh](TCPStream& st) { hh = Hu(hh, st.id() + 1000); }); h = hh;
         }
         else if (op == "wep") { const auto& fx = gen::Fixtures::get(); Crypto::WEPDecrypter d; d.add_password("00:12:bf:12:32:29", k.num("bad") ? "\x1f\x1f\x1f\x1f\x1e" : "\x1f\x1f\x1f\x1f\x1f"); for (auto& fr : fx.by.count("dot11") ? fx.by.find("dot11")->second : std::vector<std::pair<std::string, Bytes> >()) { if (fr.first.find("wep_decrypt") == std::string::npos) continue; std::unique_ptr<PDU> p(Dot11::from_bytes(fr.second.data(), (uint32_t)fr.second.size())); bool ok = d.decrypt(*p); h = Hu(h, ok); if (ok) { PDU::serialization_type s = p->serialize(); h = H(h, s.data(), s.size()); } } }
     }
@@ -325,7 +332,7 @@ struct ThrEngine : Engine {
                             k.set("op", "wpa2").set("set", cfg.chance(0.4) ? "ccmp_packets" : cfg.chance(0.5) ? "tkip_packets" : "ccmp_qos_packets"); break;
                     case 4: k.set("op", "dns").set("id", (int64_t)cfg.range(0, 65535)).set("n", (int64_t)cfg.range(1, 6)); break;
                     case 5: k.set("op", "addr").setu("v", cfg.next() & 0xffffffffu); break;
-                    case 6: k.set("op", "build").setu("v", cfg.next() & 0xffffffffu); break;
+                    case 6: if (cfg.chance(0.25)) { k.set("op", "legacy").setu("v", cfg.next() & 0xffffffffu); break; } k.set("op", "build").setu("v", cfg.next() & 0xffffffffu); break;
                     default: { if (cfg.chance(0.2)) { k.set("op", "wep").set("bad", cfg.chance(0.3) ? 1 : 0); break; }
                         TcpSeg s; s.sport = 1000; s.dport = 80; s.seq = 100 + (uint32_t)(i * 10); s.ack = 1; s.flags = i == 0 ? TH_SYN : (TH_ACK | TH_PSH); if (i) s.payload = wl.bytes(10); Addr a = Addr::v4(10, 0, (uint8_t)t, 1), b = Addr::v4(10, 0, (uint8_t)t, 2); if (i == 0) s.seq = 109 - 10;
                         k.set("op", "follow").set("ts", ft += 1000).set("f", tcp_frame(s, a, b, Mac::of(1), Mac::of(2), (uint16_t)i)); break; }
@@ -350,7 +357,7 @@ struct ThrEngine : Engine {
             const int dl[7] = { gen::DLT_EN10MB_, gen::DLT_RAW_, gen::DLT_IEEE802_11_, gen::DLT_IEEE802_11_RADIO_, gen::DLT_LINUX_SLL_, gen::DLT_NULL_, gen::DLT_PPI_ };
             for (int i = 0; i < 7; ++i) for (int j = 0; j < 40; ++j) { gen::Frame f = gen::frame_for(wr, dl[i]); KV k; k.set("op", "parse").set("dlt", dl[i]).set("f", f.bytes); run_op(k, ts, 0); }
             const char* sets[3] = { "ccmp_packets", "tkip_packets", "ccmp_qos_packets" }; for (int i = 0; i < 3; ++i) { KV k; k.set("op", "wpa2").set("set", sets[i]); run_op(k, ts, 0); }
-            { KV k; k.set("op", "frag").set("pl", Bytes(64, 1)).set("mtu", 16).set("id", 1).set("ord", 0); run_op(k, ts, 0); KV d; d.set("op", "dns").set("id", 1).set("n", 2); run_op(d, ts, 0); KV a; a.set("op", "addr").setu("v", 12345); run_op(a, ts, 0); KV b; b.set("op", "build").setu("v", 777); run_op(b, ts, 0); KV w; w.set("op", "wep").set("bad", 0); run_op(w, ts, 0);
+            { KV k; k.set("op", "frag").set("pl", Bytes(64, 1)).set("mtu", 16).set("id", 1).set("ord", 0); run_op(k, ts, 0); KV d; d.set("op", "dns").set("id", 1).set("n", 2); run_op(d, ts, 0); KV a; a.set("op", "addr").setu("v", 12345); run_op(a, ts, 0); KV b; b.set("op", "build").setu("v", 777); run_op(b, ts, 0); { KV lg; lg.set("op", "legacy").setu("v", 5); run_op(lg, ts, 0); } KV w; w.set("op", "wep").set("bad", 0); run_op(w, ts, 0);
               KV p; p.set("op", "pmk").set("psk", "warmup-pass").set("ssid", "warmup-net"); run_op(p, ts, 0);
               TcpSeg sg; sg.sport = 1; sg.dport = 2; sg.seq = 5; sg.flags = TH_SYN; KV fo; fo.set("op", "follow").set("ts", 1).set("f", tcp_frame(sg, Addr::v4(1, 1, 1, 1), Addr::v4(2, 2, 2, 2), Mac::of(1), Mac::of(2))); run_op(fo, ts, 0); }
             ts = ThreadState(); mon::tl_logical = -1; } }
